@@ -15,6 +15,10 @@ void xx_init(int cap, int depth) {
     X->set_write_callback(igris::make_delegate(xw)); X->set_execute_callback(igris::make_delegate(xe)); X->set_signal_callback(igris::make_delegate(xs));
     X->init_step();
 }
+// the same object initialised again (a console reconfigured at run time): init() must leave nothing of the earlier configuration behind
+void xx_reinit(int cap, int depth) { X->init(cap, depth);
+    X->set_write_callback(igris::make_delegate(xw)); X->set_execute_callback(igris::make_delegate(xe)); X->set_signal_callback(igris::make_delegate(xs));   // (init() clears them)
+    X->init_step(); }
 void xx_key(int c) { X->newdata((int16_t)c); }
 int xx_len() { return (int)X->rl._line.current_size(); }
 int xx_cursor() { return (int)X->rl._line.sl.cursor; }
